@@ -59,6 +59,25 @@ class NoFindings(Exception):
         return 0
 
 
+def _errno_error(name, code):
+    import os as _os
+
+    def __init__(self, *args):
+        OSError.__init__(self, code, _os.strerror(code))
+
+    return type(name, (OSError,), {"__init__": __init__, "__module__": __name__})
+
+
+# OSErrors that carry an errno a program may treat as "the whole process is in trouble" (descriptors, memory, disk)
+import errno as _errno
+
+EmfileError = _errno_error("EmfileError", _errno.EMFILE)
+EnfileError = _errno_error("EnfileError", _errno.ENFILE)
+EnomemError = _errno_error("EnomemError", _errno.ENOMEM)
+EnospcError = _errno_error("EnospcError", _errno.ENOSPC)
+EintrError = _errno_error("EintrError", _errno.EINTR)
+
+
 class SignatureError(Exception):
     """Own constructor signature; keeps args in step with it, so it pickles."""
 
@@ -68,6 +87,7 @@ class SignatureError(Exception):
 
 
 EXC = {
+    "EmfileError": EmfileError, "EnfileError": EnfileError, "EnomemError": EnomemError, "EnospcError": EnospcError, "EintrError": EintrError,
     "FalsyError": FalsyError,
     "NoFindings": NoFindings,
     "FrozenError": FrozenError,
@@ -104,8 +124,10 @@ CAPTURABLE = [
     # the payload's own failure (input nested too deeply for the function), which taskproc names in its capture clause -
     # a RuntimeError only by inheritance
     "RecursionError",
+    "EmfileError", "EnfileError", "EnomemError", "EnospcError", "EintrError",
 ]
 SUPER = {
+    "EmfileError": "OSError", "EnfileError": "OSError", "EnomemError": "OSError", "EnospcError": "OSError", "EintrError": "OSError",
     "KeyError": "LookupError", "IndexError": "LookupError", "ZeroDivisionError": "ArithmeticError",
     "UnicodeError": "ValueError", "InterruptedError": "OSError", "TimeoutError": "OSError", "PermissionError": "OSError",
 }
